@@ -308,6 +308,14 @@ def feval(t, env, eng, depth=0):
         if nm == 'min' and len(args) == 2: return min(args)
         if nm == 'max' and len(args) == 2: return max(args)
         if nm == 'clamp' and len(args) == 3: return max(args[1], min(args[2], args[0]))
+        import math as _m
+        try:
+            if nm == 'sin' and len(args) == 1: return _m.sin(args[0])
+            if nm == 'cos' and len(args) == 1: return _m.cos(args[0])
+            if nm == 'asin' and len(args) == 1: return _m.asin(args[0])
+            if nm == 'sqrt' and len(args) == 1: return _m.sqrt(args[0])
+        except ValueError:
+            return None
         return None
     if k == 'phi':
         g = eng.phi_gate.get(t)
